@@ -104,6 +104,40 @@ def _pattern_text(v):
     return None, False
 
 
+def _branches(pattern: str) -> list[str]:
+    """top-level alternatives of a regex (split at `|` outside groups and character classes)"""
+    out, cur, depth, in_class, i = [], "", 0, False, 0
+    while i < len(pattern):
+        c = pattern[i]
+        if c == "\\" and i + 1 < len(pattern):
+            cur += pattern[i:i + 2]
+            i += 2
+            continue
+        if in_class:
+            in_class = c != "]"
+        elif c == "[":
+            in_class = True
+        elif c == "(":
+            depth += 1
+        elif c == ")":
+            depth -= 1
+        elif c == "|" and depth == 0:
+            out.append(cur)
+            cur = ""
+            i += 1
+            continue
+        cur += c
+        i += 1
+    out.append(cur)
+    return out
+
+
+def _strip_group(b: str) -> str:
+    while b.startswith("(") and b.endswith(")") and not b.startswith("(?"):
+        b = b[1:-1]
+    return b
+
+
 def _boundary_after_name(pattern: str) -> bool:
     """Does the pattern forbid a word character right after the literal VARNAME?"""
     try:
@@ -164,6 +198,20 @@ def rule_pattern(ctx):
             ctx.violation("C15.b", "variables", "Variables.inline_variables", "substitution count limited", sloc,
                           f"re.sub is called with count=`{tagof(count)}` (a flag passed positionally lands in `count`): only that many references "
                           f"of a variable are substituted per statement, the next one is reported as an undefined variable")
+        alts = [_strip_group(b) for b in _branches(body)]
+        skippers = [b for b in alts if b.startswith("'")]
+        for b in skippers:
+            # a branch that skips over '…' literals must read them as Snowflake's tokenizer does: '' AND backslash escapes
+            okl = "\\\\." in b
+            ctx.ob("C15.e", f"the string-literal branch `{b}` of the reference pattern knows backslash escapes", okl, sloc)
+            if not okl:
+                ctx.violation("C15.e", "variables", "Variables.inline_variables", "string-literal skipper without backslash escapes", sloc,
+                              f"the pattern skips string literals with `{b}`, which ends a literal at a backslash-escaped quote (`'it\\'s'`): text after "
+                              f"it is taken for a literal, so a later `$name` is neither substituted nor reported")
+        if len(alts) > 1:
+            named = [b for b in alts if "VARNAME" in b or b.startswith("\\$")]
+            body = named[0] if named else body
+            txt = body
         if has_name or "VARNAME" in txt:
             okb = _boundary_after_name(txt) and body.startswith("\\$")
             ctx.ob("C15.b", f"pattern `{txt}` ends the name at a word boundary", okb, sloc)
